@@ -421,6 +421,9 @@ func loadByName(name string, conn *devsim.Conn, extra ...util.Option) (*loaded, 
 	if v := checkDriver(name, ref.Default, d, pn.Levels); v != nil {
 		return nil, v
 	}
+	if v := checkOverlap(name, d.PrivilegeLevels, pn.Levels); v != nil {
+		return nil, v
+	}
 	return &loaded{ref: ref, eff: ref.Default, p: p, d: d, conn: conn}, nil
 }
 
@@ -507,4 +510,71 @@ func promptHazards(eff *refPlatform, prompts map[string]string) []string {
 		}
 	}
 	return out
+}
+
+// overlapRelation computes {(A's canonical prompt, B)} from loaded privilege levels.
+func overlapRelation(levels network.PrivilegeLevels, prompts map[string]string) ([]string, error) {
+	names := levelKeys(levels)
+	res := map[string]*regexp.Regexp{}
+	for _, k := range names {
+		re, err := regexp.Compile(levels[k].Pattern)
+		if err != nil {
+			return nil, err
+		}
+		res[k] = re
+	}
+	var out []string
+	for _, a := range names {
+		pr, ok := prompts[a]
+		if !ok {
+			continue
+		}
+		for _, b := range names {
+			if a == b {
+				continue
+			}
+			l := levels[b]
+			if accepts(refLevel{NotContains: l.NotContains}, res[b], pr) {
+				out = append(out, a+">"+b)
+			}
+		}
+	}
+	sort.Strings(out)
+	return out, nil
+}
+
+// checkOverlap compares the relation of the loaded definition with the pinned one.
+func checkOverlap(label string, levels network.PrivilegeLevels, prompts map[string]string) *mon.Result {
+	got, err := overlapRelation(levels, prompts)
+	if err != nil {
+		return nil // reported by the pattern monitors
+	}
+	want := map[string]bool{}
+	for _, p := range overlapPinned[label] {
+		want[p] = true
+	}
+	have := map[string]bool{}
+	for _, p := range got {
+		have[p] = true
+		if !want[p] {
+			i := strings.IndexByte(p, '>')
+			a, b := p[:i], p[i+1:]
+			v := viol(fmt.Sprintf("c17/prompt-overlap-changed:%s:%s-accepted-by-%s", label, a, b),
+				"the canonical %s prompt %q is now also accepted by level %q (pattern %q); the validated definition has exactly the overlaps %v. "+
+					"A session whose cached level is empty or stale takes a device showing this prompt to be in %q when that is the requested target",
+				a, prompts[a], b, levels[b].Pattern, overlapPinned[label], b)
+			return &v
+		}
+	}
+	for _, p := range overlapPinned[label] {
+		if !have[p] {
+			i := strings.IndexByte(p, '>')
+			a, b := p[:i], p[i+1:]
+			v := viol(fmt.Sprintf("c17/prompt-overlap-changed:%s:%s-accepted-by-%s:gone", label, a, b),
+				"the canonical %s prompt %q is no longer accepted by level %q; the validated definition has the overlaps %v, the loaded one %v (the pinned table must follow the definition)",
+				a, prompts[a], b, overlapPinned[label], got)
+			return &v
+		}
+	}
+	return nil
 }
